@@ -16,13 +16,13 @@ for d in sorted(glob.glob(os.path.join(HERE, "seeded", "*"))):
         mm = re.search(r"codes (\[[^\]]*\])", t)
         codes = mm.group(1) if mm else ("panic/hang" if "panicked" in t or "no progress" in t else "")
     rows.append((os.path.basename(d), m["property"], m.get("summary", "").replace("|", "/")[:230], m.get("needs", "").replace("|", "/")[:200],
-                 "yes" if r.get("caught_by_own_property") else ("NO" if r else "not run"), res, codes, m.get("verified", "")))
+                 ("yes" if r.get("caught_with_failing_input", True) else "yes (model disagreement only, no-failing-input-found)") if r.get("caught_by_own_property") else ("not run" if (not r or r.get("stale")) else "NO"), res, codes, m.get("verified", "")))
 with open(os.path.join(HERE, "docs", "SEEDED.md"), "w") as f:
     f.write("# Seeded changes (written by independent sub-agents from the property text alone) and which checks catch them\n\n")
     f.write("Each row: a change to reduction-dev/reduction that compiles, keeps the pinned suite green and breaks the property; confirmed by `bin/verify_seed.sh` (demo passes without / fails with the change; suite passes with it) and run by `bin/seeded.sh` (quick tier, seed 1) in a scratch worktree.\n\n")
     f.write("| id | property | change | needs | caught by its own check | all results (check:exit) | codes |\n|---|---|---|---|---|---|---|\n")
     for r in rows:
         f.write("| %s | %s | %s | %s | %s | %s | %s |\n" % r[:7])
-    n = len(rows); c = sum(1 for r in rows if r[4] == "yes")
-    f.write("\n%d seeded changes, %d caught by the check of the property they were written against.\n" % (n, c))
+    n = len(rows); c = sum(1 for r in rows if r[4].startswith("yes")); ci = sum(1 for r in rows if r[4] == "yes"); nr = sum(1 for r in rows if r[4] == "not run")
+    f.write("\n%d seeded changes; %d caught by the check of the property they were written against (%d of them with a concrete input that violates the specification predicate, the rest as a disagreement between implementation and model reported with no-failing-input-found); %d not run (their patch no longer applies because a later fix commit rewrote the lines).\n" % (n, c, ci, nr))
 print("docs/SEEDED.md written")
